@@ -597,6 +597,18 @@ func runC04(c *Ctx) {
 		applyRecord := p.Func(aclList + ":(*AclState).ApplyRecord")
 		for _, spec := range []string{aclList + ":(*aclList).ValidateRawRecord", aclList + ":(*aclRecordBuilder).preflightCheck"} {
 			fn := p.FuncOpt(spec)
+			if fn == nil && strings.HasSuffix(spec, "preflightCheck") {
+				// inlined into its caller: the builder method that now applies the record itself
+				for _, cand := range p.FuncsOfPkg(aclList) {
+					if cand.Parent() == nil && recvNamed(cand) == "aclRecordBuilder" && len(CallSinks(cand, CalleeFn(applyRecord), false)) > 0 {
+						if fn != nil {
+							fn = nil // ambiguous
+							break
+						}
+						fn = cand
+					}
+				}
+			}
 			if fn == nil {
 				c.Violate("C04.5-full-validation", spec, "-", "anchor function missing")
 				continue
